@@ -51,6 +51,34 @@ Proof.
 Qed.
 Print Assumptions C03_failed_call_invisible.
 
+(* T3.resume — evaluation observes nothing but the value of each variable at each frame level:
+   from two states whose stacks agree level by level and variable by variable (`sequiv`; the layout
+   of the frames and the ghost log are irrelevant) EVERY program evaluates to the same result and
+   to states that agree again.  With C03_frames: the state after any evaluation, failed ones
+   included, is interchangeable for every follow-up program with the state before in which only the
+   logged writes have been applied. *)
+Theorem C03_resume : forall fin fm tx pf fuel s1 s2 e2,
+  sequiv s1 s2 ->
+  fst (eval fin fm tx pf fuel s1 e2) = fst (eval fin fm tx pf fuel s2 e2) /\
+  sequiv (snd (eval fin fm tx pf fuel s1 e2)) (snd (eval fin fm tx pf fuel s2 e2)).
+Proof. exact (fun fin fm tx pf fuel s1 s2 e2 H => eval_resp fin fm tx pf fuel s1 s2 e2 H). Qed.
+Print Assumptions C03_resume.
+
+(* in particular, after an evaluation that wrote nothing (e.g. a call that failed before any
+   assignment) every follow-up program behaves as if it had not happened *)
+Theorem C03_resume_after_failed_call : forall fm tx pf fuel st e r st' fuel2 e2,
+  eval eval_fn_pop_in_finally fm tx pf fuel st e = (r, st') -> log st' = log st ->
+  fst (eval eval_fn_pop_in_finally fm tx pf fuel2 st' e2) = fst (eval eval_fn_pop_in_finally fm tx pf fuel2 st e2) /\
+  sequiv (snd (eval eval_fn_pop_in_finally fm tx pf fuel2 st' e2)) (snd (eval eval_fn_pop_in_finally fm tx pf fuel2 st e2)).
+Proof.
+  exact (eq_ind_r (fun f => forall fm tx pf fuel st e r st' fuel2 e2,
+            eval f fm tx pf fuel st e = (r, st') -> log st' = log st ->
+            fst (eval f fm tx pf fuel2 st' e2) = fst (eval f fm tx pf fuel2 st e2) /\
+            sequiv (snd (eval f fm tx pf fuel2 st' e2)) (snd (eval f fm tx pf fuel2 st e2)))
+           resume_after_silent (eq_refl : eval_fn_pop_in_finally = true)).
+Qed.
+Print Assumptions C03_resume_after_failed_call.
+
 (* without the `finally` the statement is false: a call whose body raises leaves its frame behind *)
 Theorem C03_frames_refuted_without_finally :
   exists e r st', eval false true true (fun _ _ => Err EType) 5 init_state e = (r, st') /\
@@ -123,6 +151,51 @@ Example C03_merge_example :
   merge_projections true [Some [TInt 1; TNone; TNone]; Some [TNone; TInt 2]; Some [TInt 3]]
   = MArr [TInt 1; TInt 3; TInt 2].
 Proof. reflexivity. Qed.
+
+(* T3.proj — calling a projection that completes the argument list equals the direct call of the
+   function with the positionally filled argument list: through one projection (g::f(P1); g(a2)) and
+   through two (g::f(P1); h::g(P2); h(a3)), for every hole pattern P1, P2 and hence every fill order
+   (the filled list is `fill_all`, characterised by C03_fill_positional), any arity. *)
+Theorem C03_proj : forall fin tx pf fuel st g cg f cf b P1 n1 n a2 n2 h ch P2 n2' a3 n3,
+  op_rooted b = true -> is_reserved g = false -> is_reserved f = false -> is_reserved h = false ->
+  ctx_lookup g (frames st) = Some (TFn cg (TSym f) (Some P1) n1) ->
+  ctx_lookup f (frames st) = Some (TFn cf b None n) ->
+  ctx_lookup h (frames st) = Some (TFn ch (TSym g) (Some P2) n2') ->
+  existsb is_none P1 = true -> existsb is_none P2 = true ->
+  (0 < n1)%nat -> (0 < n2)%nat -> (0 < n2')%nat -> (0 < n3)%nat ->
+  (existsb is_none (fill_all P1 [a2]) = false -> (n <= length (fill_all P1 [a2]))%nat -> (0 < length (fill_all P1 [a2]))%nat ->
+   eval fin merge_restarts_per_fill tx pf (S fuel) st (TFn true (TSym g) (Some a2) n2)
+   = eval fin merge_restarts_per_fill tx pf (S fuel) st (TFn true (TSym f) (Some (fill_all P1 [a2])) (length (fill_all P1 [a2])))) /\
+  (existsb is_none (fill_all P1 [P2; a3]) = false -> (n <= length (fill_all P1 [P2; a3]))%nat -> (0 < length (fill_all P1 [P2; a3]))%nat ->
+   eval fin merge_restarts_per_fill tx pf (S fuel) st (TFn true (TSym h) (Some a3) n3)
+   = eval fin merge_restarts_per_fill tx pf (S fuel) st (TFn true (TSym f) (Some (fill_all P1 [P2; a3])) (length (fill_all P1 [P2; a3])))).
+Proof.
+  exact (eq_ind_r (fun m => forall fin tx pf fuel st g cg f cf b P1 n1 n a2 n2 h ch P2 n2' a3 n3,
+    op_rooted b = true -> is_reserved g = false -> is_reserved f = false -> is_reserved h = false ->
+    ctx_lookup g (frames st) = Some (TFn cg (TSym f) (Some P1) n1) ->
+    ctx_lookup f (frames st) = Some (TFn cf b None n) ->
+    ctx_lookup h (frames st) = Some (TFn ch (TSym g) (Some P2) n2') ->
+    existsb is_none P1 = true -> existsb is_none P2 = true ->
+    (0 < n1)%nat -> (0 < n2)%nat -> (0 < n2')%nat -> (0 < n3)%nat ->
+    (existsb is_none (fill_all P1 [a2]) = false -> (n <= length (fill_all P1 [a2]))%nat -> (0 < length (fill_all P1 [a2]))%nat ->
+     eval fin m tx pf (S fuel) st (TFn true (TSym g) (Some a2) n2)
+     = eval fin m tx pf (S fuel) st (TFn true (TSym f) (Some (fill_all P1 [a2])) (length (fill_all P1 [a2])))) /\
+    (existsb is_none (fill_all P1 [P2; a3]) = false -> (n <= length (fill_all P1 [P2; a3]))%nat -> (0 < length (fill_all P1 [P2; a3]))%nat ->
+     eval fin m tx pf (S fuel) st (TFn true (TSym h) (Some a3) n3)
+     = eval fin m tx pf (S fuel) st (TFn true (TSym f) (Some (fill_all P1 [P2; a3])) (length (fill_all P1 [P2; a3])))))
+    proj_is_direct (eq_refl : merge_restarts_per_fill = true)).
+Qed.
+Print Assumptions C03_proj.
+
+(* Non-vacuity: f::{x-y*z}... g::f(1;;); h::g(;2); h(3) = f(1;3;2) (the program the pinned tree got wrong) *)
+Example C03_proj_example :
+  let nF := 10 in let nG := 11 in let nH := 12 in
+  let b := TOp2 Join (TSym nX) (TOp2 Join (TSym nY) (TSym nZ)) in
+  let st := mk_state [[(nF, TFn false b None 3); (nG, TFn false (TSym nF) (Some [TInt 1; TNone; TNone]) 3);
+                       (nH, TFn false (TSym nG) (Some [TNone; TInt 2]) 2)]] [] in
+  fill_all [TInt 1; TNone; TNone] [[TNone; TInt 2]; [TInt 3]] = [TInt 1; TInt 3; TInt 2] /\
+  fst (eval true true true (fun _ _ => Err EType) 20 st (TFn true (TSym nH) (Some [TInt 3]) 1)) = Ok (TArr [TInt 1; TInt 3; TInt 2]).
+Proof. vm_compute. split; reflexivity. Qed.
 
 (* T3.cond — a conditional evaluates its condition, then exactly the branch selected by Klong
    truth; the other branch is not evaluated at all (it can be replaced by anything, including a
